@@ -580,16 +580,30 @@ func runAlph(c aCase, o aOracles) (*vh.Violation, vh.Outcome) {
 		// last answers before the message arrived
 		lastMain, haveMain := false, false
 		var lastHeight int32 = -1
+		lastMainAt := -1
+		var newHeightAt []int // positions of the height answers that reported a new height (only those are handed to the event loop)
+		var topHeight int32 = -1
 		for k := 0; k < a.reqAt && k < len(reqs); k++ {
 			r := reqs[k]
 			if r.kind == "mainchain" && r.arg == blk.Hash && r.status == 200 {
 				lastMain, haveMain = r.resp == "true", true
+				lastMainAt = k
 			}
 			if r.kind == "chaininfo" && r.status == 200 {
 				var h int32
 				fmt.Sscanf(r.resp, `{"currentHeight":%d}`, &h)
 				lastHeight = h
+				if h > topHeight {
+					topHeight = h
+					newHeightAt = append(newHeightAt, k)
+				}
 			}
+		}
+		// "at that moment": on the polling path a message is handed over while a new height is being processed, and the
+		// block is asked about during that round. The round in progress is that of the last new height or - when the
+		// next one has already been fetched and is waiting - the one before it. An answer older than that is a memory.
+		if !isReobs && haveMain && lastMain && len(newHeightAt) >= 2 && lastMainAt < newHeightAt[len(newHeightAt)-2] {
+			return vh.V("C08/forwarded-on-stale-main-chain-answer", "op %d (polling path): message of tx %s forwarded from block %s; the node was last asked whether that block is on the main chain at request #%d, two new heights (requests #%d, #%d) before the hand-off", a.op, txid[:12], blk.Hash[:10], lastMainAt, newHeightAt[len(newHeightAt)-2], newHeightAt[len(newHeightAt)-1]), out
 		}
 		if !haveMain || !lastMain {
 			return vh.V("C08/orphaned-block-event-forwarded", "op %d (%s path): message of tx %s forwarded from block %s although the node's last main-chain answer for that block before the hand-off was %v (asked: %v)", a.op, path, txid[:12], blk.Hash[:10], lastMain, haveMain), out
